@@ -14,6 +14,19 @@ pub fn first_line_leading_spaces(s: &str) -> usize {
     0
 }
 
+/// Whether `s` can be carried by a block scalar (`|` or `>`) unchanged.
+///
+/// Block scalars have no escape sequences: the reader turns a carriage return into a line
+/// feed, and other control characters are not printable YAML.
+pub fn is_block_scalar_safe(s: &str) -> bool {
+    for ch in s.chars() {
+        if ch.is_control() && ch != '\n' && ch != '\t' {
+            return false;
+        }
+    }
+    true
+}
+
 /// Write a folded block string body, wrapping to `folded_wrap_col` characters.
 /// Preserves blank lines between paragraphs. Each emitted line is indented
 /// exactly at `indent` depth.
